@@ -1,5 +1,6 @@
 import XalanModel.C11.DispatchProofs
 import XalanModel.C11.Recycle
+import XalanModel.C11.Token
 import XalanModel.Generated.C11_Caches
 /-!
 # C11 — an expression has one value, whichever way the caller asks for it
@@ -110,6 +111,55 @@ theorem chars_chunking_admissible {N : Type} (P : Prims N) (nodeChunks : Nat →
       simp [h]
 
 example : AdmissibleEvents [120, 121] [[120], [121]] := by simp [AdmissibleEvents]
+
+/-! ### XToken and the conversion helpers the specialised paths call -/
+
+/-- The regenerated bodies of XToken's conversion members (inline `boolean()`/`num()`, the virtual `boolean/num/str`
+overloads, both `set`s) are the expected ones, and the compiler stores `toDouble(text)` as a string literal's number and
+`NumberToDOMString(value)` as a number literal's string (`decide` over the regenerated table). -/
+theorem token_coherent :
+    tokenCoherentB XalanModel.Generated.C11.tokenMethod XalanModel.Generated.C11.literalTokenNumIsToDouble
+      XalanModel.Generated.C11.numberTokenStrIsNumberToDOMString = true := by decide
+
+/-- Hence every conversion member of a token the compiler built answers with the standard conversion of the value the
+token denotes on the generic path (string literal ↦ that string, number literal ↦ that number): boolean, number, string,
+string appended to a buffer, string as character events — inline and virtual members alike. -/
+theorem token_conversions_standard {N : Type} (P : Prims N) (t : Token N) (hw : t.WF P) (buf : Str) :
+    semTBool P t (XalanModel.Generated.C11.tokenMethod .booleanInline) = some (toBool P t.denotes) ∧
+    semTBool P t (XalanModel.Generated.C11.tokenMethod .booleanV) = some (toBool P t.denotes) ∧
+    semTNum t (XalanModel.Generated.C11.tokenMethod .numInline) = some (toNum P t.denotes) ∧
+    semTNum t (XalanModel.Generated.C11.tokenMethod .numV) = some (toNum P t.denotes) ∧
+    semTStr t (XalanModel.Generated.C11.tokenMethod .strV) = some (toStr P t.denotes) ∧
+    semTStr t (XalanModel.Generated.C11.tokenMethod .str0) = some (toStr P t.denotes) ∧
+    semTStr t (XalanModel.Generated.C11.tokenMethod .strCharsV) = some (toStr P t.denotes) ∧
+    semTStr t (XalanModel.Generated.C11.tokenMethod .strChars) = some (toStr P t.denotes) ∧
+    semTAppend buf t (XalanModel.Generated.C11.tokenMethod .strBufV) = some (buf ++ toStr P t.denotes) ∧
+    semTAppend buf t (XalanModel.Generated.C11.tokenMethod .strBuf) = some (buf ++ toStr P t.denotes) :=
+  token_sound_of P _ _ _ token_coherent t hw buf
+
+/-- For a **number-literal** token the boolean member is `XObject::boolean(number)` — not NaN and not zero — whatever its
+string form (`0`, `0.0`, `00`, `.0` are false although their text is non-empty). -/
+theorem token_boolean_number_literal {N : Type} (P : Prims N) (x : N) :
+    semTBool P ⟨P.n2s x, x, false⟩ (XalanModel.Generated.C11.tokenMethod .booleanInline) = some (P.n2b x) := by
+  have h := (token_conversions_standard P ⟨P.n2s x, x, false⟩ (by simp [Token.WF]) []).1
+  simpa [Token.denotes, XalanModel.C11.toBool] using h
+
+/-- For a **string-literal** token the boolean member is "the string is not empty" (`'0'`, `'false'`, `' '` are true). -/
+theorem token_boolean_string_literal {N : Type} (P : Prims N) (s : Str) :
+    semTBool P ⟨s, P.s2n s, true⟩ (XalanModel.Generated.C11.tokenMethod .booleanInline) = some (!s.isEmpty) := by
+  have h := (token_conversions_standard P ⟨s, P.s2n s, true⟩ (by simp [Token.WF]) []).1
+  simpa [Token.denotes, XalanModel.C11.toBool] using h
+
+example : demoPrims.n2b 0 = false ∧ demoPrims.n2s 0 ≠ [] := by decide
+
+/-- The static conversions of `XObject` (`boolean(double)`, `boolean(string)`, `boolean(list)`, `number(bool)`,
+`number(string)`, `number(ec, list|node)`, the `string(...)` overloads) and the virtual conversions of
+XBoolean / XNumber(Base) / XStringBase / XNodeSetBase have, in the current source, exactly the bodies `stdConv`
+(`toBool`/`toNum`/`toStr`, `b2s`) is written against; `"true"`/`"false"` are the model's `b2s`. -/
+theorem static_conversions_as_specified :
+    XalanModel.Generated.C11.convRows = expectedConvRows ∧
+    XalanModel.Generated.C11.trueString = b2s true ∧ XalanModel.Generated.C11.falseString = b2s false := by
+  decide
 
 /-! ### recycled objects (the generic path converts through an XObject the factory may have used before) -/
 open XalanModel.C11.Recycle in
